@@ -32,14 +32,33 @@ func extraMaxFromEnv() map[string]int {
 	return m
 }
 
-// address-space cap of a worker: a legitimate decode needs a few MiB (the largest codec working set is 8 MiB);
-// the Go runtime itself maps ≈1.5 GiB at start-up, so 2 GiB leaves ≈0.5 GiB of heap and makes a runaway allocation fail fast
-var rlimitAS = func() uint64 {
-	if v, err := strconv.Atoi(os.Getenv("VERIF_C10_RLIMIT_MB")); err == nil && v > 0 {
-		return uint64(v) << 20
+// Address-space cap of a worker: what the process has mapped at start-up (the Go runtime reserves ≈1.5 GiB of
+// address space by itself) plus heapRoom. A legitimate decode needs a few MiB (largest codec working set: 8 MiB),
+// so a runaway allocation fails fast and only kills the worker.
+var heapRoomMB = func() uint64 {
+	if v, err := strconv.Atoi(os.Getenv("VERIF_C10_HEAP_MB")); err == nil && v > 0 {
+		return uint64(v)
 	}
-	return 2048 << 20
+	return 512
 }()
+
+func capAddressSpace() {
+	vm := uint64(1536 << 20)
+	if b, err := os.ReadFile("/proc/self/status"); err == nil {
+		for _, l := range strings.Split(string(b), "\n") {
+			if strings.HasPrefix(l, "VmSize:") {
+				f := strings.Fields(l)
+				if len(f) >= 2 {
+					if kb, err := strconv.ParseUint(f[1], 10, 64); err == nil {
+						vm = kb << 10
+					}
+				}
+			}
+		}
+	}
+	lim := vm + heapRoomMB<<20
+	_ = syscall.Setrlimit(syscall.RLIMIT_AS, &syscall.Rlimit{Cur: lim, Max: lim})
+}
 
 // TestChild: worker. Address space capped so that a multi-GiB make() kills only this process; the case
 // being executed is in the progress file.
@@ -48,17 +67,18 @@ func TestChild(t *testing.T) {
 		t.Skip()
 	}
 	metrics.UseNilMetrics = true
-	_ = syscall.Setrlimit(syscall.RLIMIT_AS, &syscall.Rlimit{Cur: rlimitAS, Max: rlimitAS})
+	capAddressSpace()
 	sarama.VerifC09Families(extraMaxFromEnv())
 	c09.ChildLoopEmit(func(u string, emit func(interface{})) interface{} {
-		base, from, skip := parseUnit(u)
-		return sarama.VerifC10RunUnit(base, from, skip, c09.Progress, func(r sarama.VerifC10Result) { emit(r) })
+		base, from, to, skip := parseUnit(u)
+		return sarama.VerifC10RunUnit(base, from, to, skip, c09.Progress, func(r sarama.VerifC10Result) { emit(r) })
 	})
 	exitCode = 0
 }
 
-// unit strings on the wire: "base" | "base@from" | "base@from!skip1,skip2" (indices of cases known to kill the process)
-func parseUnit(u string) (base string, from int, skip map[int]bool) {
+// unit strings on the wire: "base" | "base@from-to" | "base@from-to!skip1,skip2" (cases [from,to) of the unit, to=0: to the
+// end; skips = indices of cases known to kill the process). "base" here includes the chunk suffix, see chunkKey.
+func parseUnit(u string) (base string, from, to int, skip map[int]bool) {
 	skip = map[int]bool{}
 	base = u
 	if i := strings.LastIndex(u, "@"); i >= 0 {
@@ -72,12 +92,16 @@ func parseUnit(u string) (base string, from int, skip map[int]bool) {
 			}
 			rest = rest[:j]
 		}
-		from, _ = strconv.Atoi(rest)
+		ft := strings.SplitN(rest, "-", 2)
+		from, _ = strconv.Atoi(ft[0])
+		if len(ft) == 2 {
+			to, _ = strconv.Atoi(ft[1])
+		}
 	}
 	return
 }
 
-func formatUnit(base string, from int, skip map[int]bool) string {
+func formatUnit(base string, from, to int, skip map[int]bool) string {
 	var l []int
 	for k := range skip {
 		if k >= from {
@@ -85,7 +109,7 @@ func formatUnit(base string, from int, skip map[int]bool) string {
 		}
 	}
 	sort.Ints(l)
-	s := fmt.Sprintf("%s@%d", base, from)
+	s := fmt.Sprintf("%s@%d-%d", base, from, to)
 	for i, k := range l {
 		if i == 0 {
 			s += "!"
@@ -140,9 +164,21 @@ func TestCheck(t *testing.T) {
 		k := (ev.Seed()%n + n) % n * 7919 % n
 		rest = append(rest[k:], rest[:k]...)
 	}
+	// units are cut into chunks of ≤ chunk cases, so that a unit full of fatal cases is shared by several workers
+	const chunk = 1500
 	var ids []string
 	for _, u := range append(first, rest...) {
-		ids = append(ids, u.ID)
+		if u.Weight <= chunk {
+			ids = append(ids, u.ID)
+			continue
+		}
+		for from := 0; from < u.Weight; from += chunk {
+			to := from + chunk
+			if to >= u.Weight {
+				to = 0
+			}
+			ids = append(ids, fmt.Sprintf("%s@%d-%d", u.ID, from, to))
+		}
 	}
 	xb, _ := json.Marshal(extra)
 	start := time.Now()
@@ -191,13 +227,14 @@ func TestCheck(t *testing.T) {
 			c.EngineError("unit " + unit + ": " + r.EngineErr)
 			return
 		}
-		base, _, _ := parseUnit(unit)
+		base, _, to, _ := parseUnit(unit)
+		key := fmt.Sprintf("%s-%d", base, to)
 		if r.Partial || r.Recycle {
-			flushedNext[base] = r.Next
+			flushedNext[key] = r.Next
 		}
 		if r.Recycle {
 			recycles++
-			next = formatUnit(base, r.Next, fatal[base])
+			next = formatUnit(base, r.Next, to, fatal[base])
 		}
 		a := fam(r.Family)
 		if !r.Partial && !r.Recycle {
@@ -243,7 +280,8 @@ func TestCheck(t *testing.T) {
 	}
 	pool.OnDeath = func(unit, why, progress string) string {
 		deaths++
-		base, _, _ := parseUnit(unit)
+		base, from0, to, _ := parseUnit(unit)
+		key := fmt.Sprintf("%s-%d", base, to)
 		f := strings.Split(base, "|")[0]
 		fam(f).Deaths++
 		if !strings.HasPrefix(progress, base+"#") {
@@ -275,18 +313,22 @@ func TestCheck(t *testing.T) {
 			}
 		}
 		report(fmt.Sprintf("%s type=%s%s kind=%s", failure, f, codec, kind),
-			fmt.Sprintf("the worker process (address space capped at %d MiB) died while decoding case %s: %s", rlimitAS>>20, progress, why), unit, progress)
+			fmt.Sprintf("the worker process (heap room capped at %d MiB) died while decoding case %s: %s", heapRoomMB, progress, why), unit, progress)
 		idx, _ := strconv.Atoi(progress[strings.LastIndex(progress, "#")+1:])
 		if fatal[base] == nil {
 			fatal[base] = map[int]bool{}
 		}
 		fatal[base][idx] = true
 		// results since the last partial answer died with the worker: run again from there, leaving out the fatal cases
-		return formatUnit(base, flushedNext[base], fatal[base])
+		from := flushedNext[key]
+		if from < from0 {
+			from = from0
+		}
+		return formatUnit(base, from, to, fatal[base])
 	}
 	slow := map[string]time.Duration{}
 	pool.OnTime = func(unit string, d time.Duration, died bool) {
-		base, _, _ := parseUnit(unit)
+		base, _, _, _ := parseUnit(unit)
 		slow[base] += d
 	}
 	abandoned := map[string]int{}
@@ -378,7 +420,7 @@ func replay(path string) int {
 		// a case may kill the process: replay in a capped child and interpret its fate
 		return replayInChild(path, v.Replay["case"])
 	}
-	_ = syscall.Setrlimit(syscall.RLIMIT_AS, &syscall.Rlimit{Cur: rlimitAS, Max: rlimitAS})
+	capAddressSpace()
 	extra := map[string]int{}
 	if scan, err := c09.ScanRepo(); err == nil {
 		table := sarama.VerifC09BodyNames()
